@@ -32,7 +32,15 @@ Pair ==
     /\ Is("qpair")
     /\ CASE Ev.kind = "elev" -> Ev.qa = Ev.qb                         \* elevation does not matter (exact)
          [] Ev.kind = "mirror" -> AbsI(Ev.qa + Ev.qb) <= 1 \/ (AbsI(Ev.qa) >= 179999999 /\ AbsI(Ev.qb) >= 179999999)
-         [] Ev.kind = "meridian" -> Ev.qa \in {0, 180000000} \/ AbsI(Ev.qa) <= 1 \/ AbsI(Ev.qa) >= 179999999
+         [] Ev.kind = "meridian" ->      \* on the Kaaba's meridian the Kaaba is due north or due south; on the
+                                         \* antimeridian the great circle runs over the nearer pole (lat5 = 10^-5 degree)
+              LET north == AbsI(Ev.qa) <= 1   south == AbsI(Ev.qa) >= 179999999
+                  klat5 == 2142333 IN
+              /\ north \/ south
+              /\ (~Ev.anti /\ Ev.lat5 > klat5 + 2000) => south
+              /\ (~Ev.anti /\ Ev.lat5 < klat5 - 2000) => north
+              /\ (Ev.anti /\ Ev.lat5 > 2000 - klat5) => north
+              /\ (Ev.anti /\ Ev.lat5 < 0 - klat5 - 2000) => south
          [] Ev.kind = "side" -> (Ev.east => Ev.qa > 0) /\ (~Ev.east => Ev.qa < 0)
     /\ Step
 
